@@ -293,6 +293,11 @@ class H2Protocol:
                         event.stream_id, h2.errors.ErrorCodes.INTERNAL_ERROR
                     )
                     await self._flush()
+                if event.stream_id not in self.streams:
+                    # Already closed (e.g. reset by the client), this is
+                    # only its app finishing: the connection's idle state
+                    # has not changed and its timeout must not start anew.
+                    return
                 await self._close_stream(event.stream_id)
                 idle = len(self.streams) == 0 or all(
                     stream.idle for stream in self.streams.values()
